@@ -4,6 +4,8 @@ CONSTANTS
   Fix = {}
   Known = {"S7", "S13", "S14"}
   Gen = FALSE
+  StripProps = {"hash_c1", "hash_c2"}
+  Weak = {}
 INVARIANT Inv_NoViolation
 PROPERTY Live
 CHECK_DEADLOCK FALSE
